@@ -126,6 +126,7 @@ type e1 struct {
 	planStep   int
 	planKind   string
 	planFired  bool
+	badMeta    bool
 	did        map[string]int // harness-driven closes/cancels that really happened -> step
 	probeStart int
 	ctl        []*ctlProxy
@@ -359,6 +360,15 @@ func (x *e1) runFaultTask(ft FaultTask) {
 	case "cancel-serve":
 		done("serve-cancel")
 		x.srvCancel()
+	case "bad-metadata":
+		// a hostile or broken peer: an invoke-metadata packet for a future
+		// stream whose payload is not a metadata encoding, right after the
+		// next client write (frame boundary)
+		x.d.Record(taskName(), "fault", ft.Kind)
+		x.res.fault(ft.Kind, 1)
+		x.badMeta = true
+		x.byz = true
+		x.cep.InjectAfter = refAppendFrame(nil, RFrame{Stream: 1 << 20, Msg: 1, Kind: kInvokeMD, Done: true, Data: []byte{0xff, 0xff, 0xff}})
 	case "listener-error":
 		if x.lis == nil {
 			x.res.probe("planned_fault_not_applicable")
@@ -516,9 +526,17 @@ func (x *e1) execOp(sd *sideRec, op Op) {
 		rec := &sendRec{Op: op, Start: x.d.Step, Bytes: b}
 		sd.Sends = append(sd.Sends, rec)
 		termAtStart := x.terminated(st)
+		ep := x.sep
+		if sd.client {
+			ep = x.cep
+		}
+		failedBefore, wasFailed := ep.FailedBy[taskName()], ep.Failed()
 		sd.InCall++
 		x.call(fmt.Sprintf("%s.MsgSend rpc%d", who, k), func() { rec.Err = st.MsgSend(&Msg{B: b}, x.enc) })
 		sd.InCall--
+		if rec.Err == nil && !x.prog.Cfg.Manual && (wasFailed || ep.FailedBy[taskName()] > failedBefore) {
+			x.viol("fault-send-ok", "send returned nil although a transport write it issued failed (or its endpoint had already failed)", fmt.Sprintf("rpc%d %s failed-before=%v own-failed-writes=%d", k, op, wasFailed, ep.FailedBy[taskName()]-failedBefore))
+		}
 		if termAtStart && r.Cancelled && sd.client && rec.Err == nil {
 			x.viol("cancel-later-op", fmt.Sprintf("send issued on a cancelled, terminated rpc succeeded mode=%s", x.cancelMode()), fmt.Sprintf("rpc%d %s", k, op))
 		}
